@@ -311,6 +311,12 @@ static void check_value_store(cfg_t *ctx, int stored, struct pstate *ps)
 	if (cls == CV_REJECT)
 		V_ASSERT(!stored, "[C01] a value token that cannot be converted is rejected");
 #endif
+#if defined(CHK_C07) && defined(WITH_PARSECB)
+	if (!stored && O->type == CFGT_PTR && cb_parse_rc != 0 && !was_reset && pre_nvalues == 1) {
+		V_ASSERT(n_freecb == 0, "[C07] a rejected replacement of a user-defined pointer value does not release the old value");
+		V_ASSERT(O->nvalues == 1 && cfg_opt_getnptr(O, 0) == (void *)&ptr_cell_a, "[C07] a rejected replacement keeps the old pointer value stored");
+	}
+#endif
 	if (!stored)
 		return;
 	if (is_list())
@@ -667,6 +673,17 @@ static void check_outcome(cfg_t *ctx, int act_kind, int act_state, struct pstate
 #if KIND != K_SECKV
 	if (pre_opt != O || !(O->flags & CFGF_DROP))
 		assert_store_unchanged("state 0");
+#if defined(PREV_IS_O) && (KIND == K_DEPR || KIND == K_DEPRDROP)
+	/* the item that just ended assigned a deprecated option: whatever comes next (another item, a comment,
+	 * the closing brace of the section, the end of the input) the option is reported, and dropped if flagged so */
+	if (T != 0 && !(T == '}' && pre_level == 0)) {
+		V_ASSERT(n_err >= 1, "[C01] a deprecated option that was assigned is reported");
+		if (O->flags & CFGF_DROP)
+			V_ASSERT(O->nvalues == 0, "[C01] a deprecated option flagged 'drop' holds no value after the item that assigned it");
+		else
+			assert_store_unchanged("deprecated, kept");
+	}
+#endif
 #endif
 #endif
 #elif PSTATE == 1
@@ -792,6 +809,8 @@ static void post_step(cfg_t *cfg, struct pstate *ps)
 		V_ASSERT(V_R_OK(ps->funcopt->values[i], sizeof(cfg_value_t)) && V_R_OK(ps->funcopt->values[i]->string, 1), "[C07] collected call arguments are live");
 #ifdef WITH_PATH
 	V_ASSERT(root.path == the_path && V_R_OK(the_path, sizeof(*the_path)) && V_R_OK(the_path->dir, 2), "[C07] the root's search path survives (sections only borrow it)");
+	if (older_path != NULL)
+		V_ASSERT(the_path->next == older_path && V_R_OK(older_path, sizeof(*older_path)) && V_R_OK(older_path->dir, 2), "[C07] every node of the root's search path survives, also one an older section still points to");
 #endif
 	if (*ps->opt != NULL && PSTATE <= 9) {
 		V_ASSERT((*ps->opt)->nvalues == 0 || V_R_OK((*ps->opt)->values, (*ps->opt)->nvalues * sizeof(cfg_value_t *)), "[C07] the value vector of the active option is live");
